@@ -102,7 +102,20 @@ def _site_case(draw):
     return dict(kind="site", mtree=mt, alpha=alpha, new=new, values=draw(gen.st_values_spec(regimes=("moderate", "ties"))), prior=draw(st.sampled_from([0.1, 0.0, 0.4])))
 
 
+@st.composite
+def _loop_case(draw):
+    n = draw(st.integers(2, 6))
+    iters = draw(st.integers(1, 3))
+    # three scripted trees per sweep (whole-tree / sub-tree update, data-point move, prune-regraft move): successive
+    # trees differ in the number of clones AND in which points are outliers
+    trees = [draw(gen.st_mtree(indices=list(range(n)), outliers=True, max_outliers=n)) for _ in range(3 * iters + 1)]
+    return dict(kind="loop", n=n, iters=iters, trees=trees, alpha=draw(st.sampled_from([1.0, 0.2, 7.5])), news=[draw(st.sampled_from([2.0, 0.05, 13.0, 1.0])) for _ in range(iters)],
+                s=draw(st.sampled_from([0.0, 0.5, 1.0])), u=draw(st.sampled_from([0.3, 0.7])), values=draw(gen.st_values_spec(regimes=("moderate", "ties"))), prior=draw(st.sampled_from([0.1, 0.4])))
+
+
 def strategy(ctx, shard=0):
+    if shard % 8 == 7:
+        return _loop_case()
     return _site_case() if shard % 4 == 3 else _sampler_case()
 
 
@@ -117,6 +130,8 @@ def warmup():
 def evaluate(case):
     if case["kind"] == "site":
         return _site(case)
+    if case["kind"] == "loop":
+        return _loop(case)
     return _sampler(case)
 
 
@@ -188,6 +203,74 @@ def _sampler(case, quad=False):
     if eta < 1e-6 or eta > 1 - 1e-6:
         classes.append("eta-extreme")
     return Outcome(nontrivial=K >= 2, classes=tuple(classes), info=case)
+
+
+def _loop(case):
+    """run._run_main_sampler with scripted stand-in moves and a recording concentration sampler: the (K, n) handed to the
+    update in sweep i must be those of the tree the sweep ends with (the tree recorded in the trace for sweep i), and the
+    recorded alpha / log_p_one must be the updated value / the density under it."""
+    import contextlib
+    import io
+    import types
+
+    import phyclone.run as prun
+    from phyclone.tree import FSCRPDistribution, Tree, TreeJointDistribution
+    from phyclone.utils import Timer
+    from vp.model import from_tree
+
+    n = case["n"]
+    vs = case["values"]
+    values = gen.make_values(n, 1, 4, vs["seed"], vs["regime"], vs["scale"])
+    data = gen.make_datapoints(values, outlier_prior=case["prior"])
+    mts = [MTree.from_json(t) for t in case["trees"]]
+    script = [to_tree_grid(m, data, (1, 4)) for m in mts]
+    td = TreeJointDistribution(FSCRPDistribution(case["alpha"]))
+    pos = [0]
+    calls = []
+
+    class Move:
+        def sample_tree(self, tree):
+            pos[0] += 1
+            return script[pos[0]].copy()
+
+    class Conc:
+        def sample(self, old, k, nn):
+            calls.append((old, k, nn))
+            return case["news"][len(calls) - 1]
+
+    class Rng:
+        def random(self):
+            return case["u"]
+
+    mv = Move()
+    holder = types.SimpleNamespace(tree_sampler=mv, subtree_sampler=mv, dp_sampler=mv, prg_sampler=mv, conc_sampler=Conc(), burnin_sampler=None)
+    tags = dict(iters=case["iters"])
+    try:
+        with contextlib.redirect_stdout(io.StringIO()):
+            res = prun._run_main_sampler(True, [data[i] for i in sorted(data)], float("inf"), case["iters"], 1, 1, 10 ** 9, holder, ["s"], 1, Timer(), script[0].copy(), td, 0, Rng(), case["s"])
+    except Exception as e:
+        raise crash_violation("loop", e, tags)
+    tr = res["trace"]
+    if len(tr) != case["iters"] + 1 or len(calls) != case["iters"]:
+        raise Violation("loop/count", "%d sweeps with the concentration update on gave %d trace entries and %d updates" % (case["iters"], len(tr), len(calls)), tags)
+    alpha = case["alpha"]
+    moved = False
+    for i in range(case["iters"]):
+        e = tr[i + 1]
+        t = Tree.from_dict(e["tree"])
+        m = from_tree(t)
+        k, n_in = m.k, sum(len(b) for b in m.blocks)
+        if calls[i] != (alpha, k, n_in):
+            raise Violation("loop/args", "sweep %d: the update was called with (alpha, K, n)=%r but the sweep ended with the tree %r: expected (%r, %d, %d)" % (i, calls[i], m, alpha, k, n_in), tags)
+        alpha = case["news"][i]
+        if e["alpha"] != alpha:
+            raise Violation("loop/recorded-alpha", "sweep %d: trace records alpha=%r, the update returned %r" % (i, e["alpha"], alpha), tags)
+        fresh = float(TreeJointDistribution(FSCRPDistribution(alpha)).log_p_one(t))
+        if abs(float(e["log_p_one"]) - fresh) > 1e-9 * max(1.0, abs(fresh)):
+            raise Violation("loop/stale-density", "sweep %d: recorded log_p_one %.12g, under the updated alpha %r it is %.12g" % (i, e["log_p_one"], alpha, fresh), tags)
+        a, b, c = mts[3 * i + 1], mts[3 * i + 2], mts[3 * i + 3]
+        moved = moved or (sum(map(len, a.blocks)) != sum(map(len, c.blocks))) or a.k != c.k
+    return Outcome(nontrivial=moved, classes=("kind:loop", "n-or-K-changed-within-a-sweep" if moved else "same-K-n-within-sweep", "iters=%d" % case["iters"]), info=case)
 
 
 def _site(case):
